@@ -29,7 +29,7 @@ type c03Cfg struct {
 
 func (c c03Cfg) String() string {
 	return fmt.Sprintf("packetSize=%d reader=%s chunk=%d api=%s option=%s", c.packetSize,
-		[]string{"bytes.Reader", "bufio.Reader", "plain", "chunked"}[c.reader], c.chunk,
+		[]string{"bytes.Reader", fmt.Sprintf("bufio.Reader(size %d)", c03BufioSize(c)), "plain", "chunked"}[c.reader], c.chunk,
 		[]string{"NextData", "NextPacket", "alternating"}[c.api],
 		[]string{"none", "skipper", "observing parser", "replacing parser", "failing parser"}[c.opt])
 }
@@ -55,6 +55,12 @@ func c03CfgFrom(b1, b2 byte) c03Cfg {
 	c.api = int(b1/24) % 3
 	c.opt = int(b2/51) % 5
 	return c
+}
+
+// c03BufioSize derives the caller's bufio buffer size from the (otherwise unused under bufio) chunk value, so that buffers around
+// the 193-byte detection window are exercised (seeded change C03-m13, F13) without an additional draw.
+func c03BufioSize(c c03Cfg) int {
+	return []int{16, 64, 187, 188, 189, 190, 191, 192, 193, 194, 256, 4096}[c.chunk%12]
 }
 
 func drawC03Cfg(t *rapid.T) c03Cfg {
@@ -90,7 +96,7 @@ func c03DriveUnguarded(input []byte, c c03Cfg) (violation string, sawErr, sawDat
 		r = br
 		consumed = func() int { return len(input) - br.Len() }
 	case 1:
-		r = bufio.NewReader(bytes.NewReader(input))
+		r = bufio.NewReaderSize(bytes.NewReader(input), c03BufioSize(c))
 	case 2:
 		cr := &countingReader{r: bytes.NewReader(input)}
 		r = cr
@@ -350,7 +356,7 @@ func drawC03Input(t *rapid.T, rec *obs.Recorder) ([]byte, string) {
 }
 
 func TestC03Inputs(t *testing.T) {
-	rec := obs.NewRecorder("C03", "inputs", "rapid: inputs {random bytes (any length, sync-studded or not); well-formed streams with bit flips, byte substitutions, forced adaptation_field_length values, spliced-out/duplicated runs and truncations; arbitrary and mutated section bodies of every table id wrapped with a correct CRC_32 and valid packet framing (so table and descriptor parsers are reached); PES packets with hostile header bytes} x configurations {packet size auto/188/192/204/189..4096} x {bytes.Reader, bufio.Reader, plain, chunked} x {NextData, NextPacket, alternating} x {no option, skipper, observing/replacing/failing parser}; oracle: no panic, every call consumes input or returns data or ErrNoMorePackets (no spinning; not asserted under bufio), ErrNoMorePackets within len(input)+64 calls and again on 3 further calls; non-trivial = input >= 2 packets and at least one call returned an error and one returned data; distinct by input bytes + configuration")
+	rec := obs.NewRecorder("C03", "inputs", "rapid: inputs {random bytes (any length, sync-studded or not); well-formed streams with bit flips, byte substitutions, forced adaptation_field_length values, spliced-out/duplicated runs and truncations; arbitrary and mutated section bodies of every table id wrapped with a correct CRC_32 and valid packet framing (so table and descriptor parsers are reached); PES packets with hostile header bytes} x configurations {packet size auto/188/192/204/189..4096} x {bytes.Reader, bufio.Reader with a buffer of 16/64/187..194/256/4096 bytes, plain, chunked} x {NextData, NextPacket, alternating} x {no option, skipper, observing/replacing/failing parser}; oracle: no panic, every call consumes input or returns data or ErrNoMorePackets (no spinning; not asserted under bufio), ErrNoMorePackets within len(input)+64 calls and again on 3 further calls; non-trivial = input >= 2 packets and at least one call returned an error and one returned data; distinct by input bytes + configuration")
 	defer rec.Flush()
 	rapid.Check(t, c03InputsProp(rec))
 }
